@@ -25,7 +25,30 @@ VERIF = os.path.dirname(os.path.dirname(os.path.abspath(__file__)))
 def load_variants():
     from .variants import VARIANTS
 
-    return VARIANTS
+    return list(VARIANTS) + load_patch_variants()
+
+
+def load_patch_variants():
+    """Patch-based variants kept under /verif: the seeded changes of independent agents (`seeded/<id>/patch.diff`: every
+    check recorded in meta.json as reporting the change must still report it) and the behaviour-preserving refactorings
+    of independent agents (`twins/<id>/patch.diff`: every check must stay silent)."""
+    import glob
+
+    out = []
+    for m in sorted(glob.glob(os.path.join(VERIF, "seeded", "*", "meta.json"))):
+        try:
+            meta = json.load(open(m))
+        except Exception:  # noqa: BLE001
+            continue
+        props = sorted(p for p, d in meta.get("detection", {}).items() if d.get("exit") == 1)
+        if not props:
+            continue
+        what = meta.get("what_it_needs_to_manifest", "").split("\n")[0][:120]
+        out.append({"id": f"seed-{meta['id']}", "props": props, "edits": [], "patch": os.path.join(os.path.dirname(m), "patch.diff"), "expect": "fire", "desc": what, "mention": None, "local": False, "each_must_fire": True})
+    for pth in sorted(glob.glob(os.path.join(VERIF, "twins", "*", "patch.diff"))):
+        tid = os.path.basename(os.path.dirname(pth))
+        out.append({"id": f"twin-{tid}", "props": list(ALL_PROPS), "edits": [], "patch": pth, "expect": "silent", "desc": "behaviour-preserving refactoring by an independent agent", "mention": None, "local": False})
+    return out
 
 
 def copy_pkg(repo, dst):
@@ -41,6 +64,15 @@ def copy_pkg(repo, dst):
 
 def apply_variant(v, root):
     """returns None if applied, else a reason why it is not applicable"""
+    if v.get("patch"):
+        r = subprocess.run(["patch", "-p1", "-s", "-f", "--no-backup-if-mismatch", "-i", v["patch"]], cwd=root, capture_output=True, text=True)
+        if r.returncode != 0:
+            return "patch does not apply to the current tree: " + (r.stdout + r.stderr).strip().splitlines()[0][:160]
+        for dp, dn, fn in os.walk(root):
+            for f in fn:
+                if f.endswith((".orig", ".rej")):
+                    return "patch applied with rejects"
+        return None
     for ed in v["edits"]:
         path = os.path.join(root, ed["file"])
         if not os.path.exists(path):
@@ -82,7 +114,7 @@ def judge(v, res):
     codes = {p: c for p, (c, _) in res["results"].items()}
     if exp == "fire":
         fired = [p for p, c in codes.items() if c == 1]
-        if not fired:
+        if not fired or (v.get("each_must_fire") and len(fired) != len(codes)):
             return False, f"MISSED {v['id']} ({v['desc']}): exit codes {codes}"
         # the report must name the construct
         if v.get("mention"):
